@@ -190,7 +190,7 @@ def run_rogue(chk, binary, cases):
 
 def run(chk):
     t = chk.tier
-    for v in ("seq", "ilv", "rogue"):
+    for v in ("seq", "ilv", "rogue", "loss"):
         res = vlib.tlc_check(MODULE, "Resumption.%s.mc.%s.cfg" % (v, t), timeout=2400)
         chk.add_tlc("mc." + v, res)
     for cfg, what in BROKEN:
@@ -211,6 +211,14 @@ def run(chk):
     if len(scripts) > cap:
         # keep every script that contains a fault or a second connection start late in the history, sample the rest
         scripts = scripts[:cap]
+    # every loss pattern of the abbreviated flights (up to 3 / 4 losses with retransmissions) is always executed in full
+    gen = vlib.tlc_generate(MODULE, "Resumption.loss.gen.%s.cfg" % t, timeout=1800)
+    chk.add_tlc("gen.loss", gen)
+    loss = dedupe_prefixes(gen.printed)
+    if len(loss) < 200:
+        raise vlib.Inconclusive("too few loss-pattern scripts (%d)" % len(loss))
+    edges += len(gen.printed)
+    scripts += loss
     cases = [make_case(rng, s, i) for i, s in enumerate(scripts)]
     binary = vlib.build("root")
     # ---- rogue peer scripts (a "server" that holds no secret of the client's store)
@@ -275,11 +283,11 @@ def run(chk):
             raise vlib.Inconclusive("vacuous resumption run: %s = %d (< %d)" % (k, total.get(k, 0), n))
     if total.get("ctlOK", 0) < 0.95 * total.get("ctlTried", 0):
         raise vlib.Inconclusive("record injection control failed: %s of %s" % (total.get("ctlOK"), total.get("ctlTried")))
-    chk.parts["replay"] = dict(total, edge_scripts=edges, after_prefix_dedupe=len(scripts), diverged=ndiv, lab=nlab)
+    chk.parts["replay"] = dict(total, edge_scripts=edges, histories_executed=len(scripts), loss_pattern_scripts=len(loss), diverged=ndiv, lab=nlab)
     chk.sample({"history": cases[0]["name"], "steps": [(x["act"], x["k"], x["arg"]) for x in cases[0]["steps"]]})
     chk.sample({"store_contents": sorted(set(c["content"] for c in cases))})
     chk.coverage["rule"] = ("one script per edge of the Resumption.tla state graph (3 generation configurations: 3 sequential connections "
-                            "without faults incl. client certificates, 2 sequential and 2 interleaved connections with one fault), prefix "
+                            "without faults incl. client certificates, 2 sequential and 2 interleaved connections with one fault; every loss pattern of the abbreviated flights up to 3 (4) losses), prefix "
                             "scripts dropped, x 7 pre-populated store contents; each connection of a history gets a seeded configuration "
                             "(suite, CID lengths, EMS, hello verification) of one authentication family; distinct = content + action sequence")
     chk.assumptions += [
